@@ -35,13 +35,14 @@ CLAIMS = {
     "C04": (
         "Bounded model checking of the line-table lookup kernels against the DWARF 5 section 6.2 rule written over the same rows: "
         "find_place_by_pc (largest row address <= pc, never an end_sequence row in preference to a real row at the same address, "
-        "descriptor = that row), find_exact_place_by_pc with next()/prev(), find_eb, find_lines_for_range, and "
+        "descriptor = that row), find_exact_place_by_pc with next()/prev(), find_eb, and "
         "prolog_end_place (the function breakpoint address is an instruction of that function, its prologue end when marked), "
         "for every table of 2-4 symbolic rows (sorted, ties allowed) and every pc / range. Two defects found this way were repaired "
         "(fix: commits af84fd5, f9f7395).",
         "Trusted: Kani/CBMC; partial BsUnit with only lines/files written; prolog_start_place and ranges() stubbed in the prologue "
         "harness. Outside the claim: gimli's decoding of .debug_line/.debug_info, find_closest_place (line -> addresses, behind the "
-        "interned path index), find_function_by_pc's DIE range search, tables longer than the instances run.",
+        "interned path index), find_lines_for_range (symbolic-length Vec, out of solver memory), find_function_by_pc's DIE range search, "
+        "tables longer than the instances run.",
         "DESIGN.md section 6, C04"),
     "C05": (
         "Bounded model checking of the register-carrying kernels of the unwinder: DwarfRegisterMap::{from(RegisterMap), value, update, "
